@@ -100,6 +100,8 @@ func main() {
 	// round 3: the cgo build of the statesql drive runs while everything else is evaluated
 	sqlB := startSQLBuild(run, repo)
 	sqlScs := sqlScenarios(run)
+	chkB := startSqlcheckBuild(run, repo)
+	chkCorpus := sqlcheckCorpus(run)
 
 	// ------------------------------------------------------------------ corpus (extractor + search self-test)
 	cs := newSearcher(g.Corpus)
@@ -324,6 +326,8 @@ func main() {
 	}
 	// ------------------------------------------------------------------ read-only SQL connection, on the real code
 	sqlDrive(run, sqlB, sqlScs)
+	// ------------------------------------------------------------------ the keyword gate of db.query, against SQLite itself
+	sqlcheckDrive(run, chkB, chkCorpus)
 	run.SetExhaustive(true)
 }
 
